@@ -270,8 +270,18 @@ func cmp(op string, a, b Term, signed bool, f func(c int) bool) Term {
 	}
 	return mk(0, "(%s %s %s)", op, a.S(), b.S())
 }
-func Ult(a, b Term) Term { return cmp("bvult", a, b, false, func(c int) bool { return c < 0 }) }
-func Ule(a, b Term) Term { return cmp("bvule", a, b, false, func(c int) bool { return c <= 0 }) }
+func Ult(a, b Term) Term {
+	if b.C != nil && b.C.Sign() == 0 {
+		return Bool(false) // nothing is below zero
+	}
+	return cmp("bvult", a, b, false, func(c int) bool { return c < 0 })
+}
+func Ule(a, b Term) Term {
+	if a.C != nil && a.C.Sign() == 0 {
+		return Bool(true)
+	}
+	return cmp("bvule", a, b, false, func(c int) bool { return c <= 0 })
+}
 func Slt(a, b Term) Term { return cmp("bvslt", a, b, true, func(c int) bool { return c < 0 }) }
 func Sle(a, b Term) Term { return cmp("bvsle", a, b, true, func(c int) bool { return c <= 0 }) }
 func Ite(c, a, b Term) Term {
